@@ -162,6 +162,9 @@ type Engine struct {
 	CbFlushed, CbAcked uint
 	cbMu               sync.Mutex
 
+	// pages held by the application that shares the file with the queue (ops appfill / apprelease)
+	AppPages []txfile.PageID
+
 	Failures []string
 	Log      []string
 	OpIndex  int
@@ -170,6 +173,8 @@ type Engine struct {
 
 	// AfterOp is called after every op
 	AfterOp func(e *Engine, op Op, res string)
+	// WriterHook is called right before ("before") and right after ("after") every call of Writer.Write / Next / Flush
+	WriterHook func(e *Engine, phase, kind string, data []byte, err error)
 	// AckHook is called after every successful ACK with the queue structure before and after it
 	AckHook func(e *Engine, n int, before, after ChainState)
 	// Snaps: model state after every completed op (for crash exploration)
@@ -349,7 +354,13 @@ func (e *Engine) apply(op Op) string {
 		chunk := content(len(e.Events), op.Seed, len(e.Cur)+n)[len(e.Cur):]
 		e.Disk.Marker("pq-op-begin")
 		before := e.cbFlushed()
+		if e.WriterHook != nil {
+			e.WriterHook(e, "before", "write", chunk, nil)
+		}
 		k, err := e.W.Write(chunk)
+		if e.WriterHook != nil {
+			e.WriterHook(e, "after", "write", chunk, err)
+		}
 		after := e.cbFlushed()
 		if err != nil {
 			e.Disk.Marker("pq-op-fail")
@@ -375,7 +386,13 @@ func (e *Engine) apply(op Op) string {
 	case "next":
 		e.Disk.Marker("pq-op-begin")
 		before := e.cbFlushed()
+		if e.WriterHook != nil {
+			e.WriterHook(e, "before", "next", nil, nil)
+		}
 		err := e.W.Next()
+		if e.WriterHook != nil {
+			e.WriterHook(e, "after", "next", nil, err)
+		}
 		after := e.cbFlushed()
 		// the event is complete (and buffered) even if the implicit flush failed
 		e.Events = append(e.Events, e.Cur)
@@ -404,7 +421,13 @@ func (e *Engine) apply(op Op) string {
 
 	case "flush":
 		e.Disk.Marker("pq-op-begin")
+		if e.WriterHook != nil {
+			e.WriterHook(e, "before", "flush", nil, nil)
+		}
 		err := e.W.Flush()
+		if e.WriterHook != nil {
+			e.WriterHook(e, "after", "flush", nil, err)
+		}
 		if err != nil {
 			e.Disk.Marker("pq-op-fail")
 			if !isOOM(err) {
@@ -592,6 +615,69 @@ func (e *Engine) apply(op Op) string {
 
 	case "counters":
 		e.CheckCounters("counters")
+		return ""
+
+	case "appfill":
+		// the application that shares the file with the queue takes every page that is left (keeping N of them free)
+		if e.InTx {
+			e.apply(Op{Kind: "rdone"})
+		}
+		tx, err := e.File.Begin()
+		if err != nil {
+			e.fail("appfill: Begin failed: %v", err)
+			return "begin-failed"
+		}
+		var got []txfile.PageID
+		for {
+			p, err := tx.Alloc()
+			if err != nil {
+				break
+			}
+			got = append(got, p.ID())
+			if len(got) > 1<<16 {
+				break
+			}
+		}
+		keep := op.N
+		if keep > len(got) {
+			keep = len(got)
+		}
+		for _, id := range got[len(got)-keep:] {
+			if p, err := tx.Page(id); err == nil {
+				p.Free()
+			}
+		}
+		got = got[:len(got)-keep]
+		if err := tx.Commit(); err != nil {
+			tx.Close()
+			return "commit-failed"
+		}
+		e.AppPages = append(e.AppPages, got...)
+		return ""
+
+	case "apprelease":
+		if e.InTx {
+			e.apply(Op{Kind: "rdone"})
+		}
+		if len(e.AppPages) == 0 {
+			return "skipped"
+		}
+		tx, err := e.File.BeginWith(txfile.TxOptions{EnableOverflowArea: true})
+		if err != nil {
+			e.fail("apprelease: Begin failed: %v", err)
+			return "begin-failed"
+		}
+		for _, id := range e.AppPages {
+			if p, err := tx.Page(id); err == nil {
+				p.Free()
+			}
+		}
+		if err := tx.Commit(); err != nil {
+			tx.Close()
+			e.fail("apprelease: Commit failed: %v", err)
+			return "commit-failed"
+		}
+		e.AppPages = nil
 		return ""
 
 	case "reopen":
